@@ -1,4 +1,6 @@
 mod explore;
+mod extract;
+mod selfcheck;
 mod pipeline;
 mod report;
 #[allow(dead_code, clippy::all)]
@@ -15,6 +17,15 @@ fn main() {
     };
     let rest = &args[1..];
     let code = match cmd.as_str() {
+        "selfcheck" => {
+            let (n, fails) = selfcheck::run(rest.iter().any(|a| a == "-v"));
+            for f in &fails {
+                println!("FAIL {f}");
+            }
+            println!("extractor self-check: {n} snapshot outputs, {} rejected", fails.len());
+            if fails.is_empty() { 0 } else { 2 }
+        }
+        "C13" => props::c13::run(rest),
         "C16" => props::c16::run(rest),
         "C18" => props::c18::run(rest),
         other => {
